@@ -37,6 +37,8 @@ func main() {
 		os.Exit(factsMain(os.Args[2:]))
 	case "stress":
 		os.Exit(stressMain(os.Args[2:]))
+	case "contract":
+		os.Exit(contractMain(os.Args[2:]))
 	default:
 		fmt.Fprintf(os.Stderr, "unknown mode %q\n", os.Args[1])
 		os.Exit(2)
@@ -56,6 +58,53 @@ func factsMain(args []string) int {
 		return 0
 	}
 	o.Meta["facts"] = f
+	return 0
+}
+
+// contractMain replays, on the real code, the out-of-contract schedule of
+// Props/C17.lean `C17_contract_needed_value_copy` (a Garbled copied by value
+// and released through both copies).  Informational: it documents the stated
+// usage-contract limit, it is not a violation of the property.
+func contractMain(args []string) int {
+	cf, o := hxlib.ParseCommon("c17", args, nil)
+	defer o.Close()
+	rng := hxlib.NewRng(cf.Seed)
+	shared, corrupted, tries := 0, 0, 0
+	for i := 0; i < cf.N; i++ {
+		r := rng.Fork()
+		c := hxlib.GenCircuit(r, hxlib.GenOpts{MaxGates: 60, MaxIn: 4, Mix: "uniform"})
+		def := definedWires(c)
+		nin := c.Inputs.Size()
+		key := r.Bytes(16)
+		tapeA, tapeB := r.Bytes(16*(1+nin)), r.Bytes(16*(1+nin))
+		func() {
+			defer func() { recover() }()
+			g1, err := c.Garble(&hxlib.Tape{Data: tapeA}, key)
+			if err != nil {
+				return
+			}
+			exp := digestGarbled(g1, def)
+			cp := *g1 // by-value copy: has its own pool field
+			g1.Release()
+			cp.Release() // not a no-op: second Put of the same scratch
+			gA, err1 := c.Garble(&hxlib.Tape{Data: tapeA}, key)
+			gB, err2 := c.Garble(&hxlib.Tape{Data: tapeB}, key)
+			if err1 != nil || err2 != nil {
+				return
+			}
+			tries++
+			sA, _, _ := garbledIDs(gA)
+			sB, _, _ := garbledIDs(gB)
+			if sA == sB {
+				shared++
+			}
+			if digestGarbled(gA, def) != exp {
+				corrupted++
+			}
+		}()
+	}
+	o.Meta["contract"] = map[string]any{"attempts": tries, "two_live_handles_share_one_scratch": shared,
+		"first_handle_overwritten": corrupted}
 	return 0
 }
 
